@@ -257,7 +257,7 @@ def sig_fn(case, text):
 
 # ---- mode 4: random records through the code, judged by TLC -----------------
 
-NAMES = ["", "", "/opt/my libs/lib a:b.so.1", "/usr/lib/x86_64-linux-gnu/libc.so.6", "/tmp/gone file",
+NAMES = ["", "", "/opt/my  libs/lib\ta:b.so.1", "/usr/lib/x86_64-linux-gnu/libc.so.6", "/tmp/gone file",
          "[heap]", "[stack]", "[vdso]", "[anon: my tag]", "/tmp/kept (deleted)", "/srv/Swap: 77 kB",
          "/memfd:buf", "/dev/zero", "/SYSV00000000", "/usr/bin/python3.12", "/a", "/x/Private_Clean: 9 kB",
          "anon_inode:[io_uring]", "/home/u/Pss:", "/var/lib/d (deleted) e"]
